@@ -12,8 +12,8 @@ yields (ghost name).  What the loop must do to EVERY record it is handed, whiche
   * no record is modified after it was handed on (pysam serialises at write time: `Record.frozen` protocol of the pysam model).
 
 Callees: `_remove_existing_phasing` through its PROVED contract (contracts/vcf_py.py); `self._set_phasing_tags` is the bound method `_set_PS` or `_set_HP`
-chosen in __init__: its contract here is `_set_PS`'s proved postcondition under `self.tag == 'PS'` and, for HP, only the frame (this call's fields) -- assumed
-for the HP branch (string formatting is outside the verified subset).  `genotype_code`, `Genotype` (a C++ wrapper) and the variant / GenotypeChange
+chosen in __init__: its contract here is `_set_PS`'s PROVED postcondition under `self.tag == 'PS'` and `_set_HP`'s PROVED postcondition under `self.tag == 'HP'`
+(both in contracts/vcf_py.py); what is assumed is only that __init__ bound the method that belongs to the tag.  `genotype_code`, `Genotype` (a C++ wrapper) and the variant / GenotypeChange
 constructors are abstract values.  Not covered by this contract: which variants get phased (that is the solver's result), the genotype-change list, the
 code before the loop (the dictionaries are arbitrary here) and the record modifier's write-after-yield (covered by the contracts of `_iterrecords` /
 `write_unchanged` and by the bounded checks).
@@ -258,7 +258,7 @@ _UNTOUCHED_FROM = "forall(k, implies(%s <= k and k < len(records), record_untouc
 _ALLOC = ["Genotype", "GenotypeChange", "Variant"]
 _MOD = ["Call.gt", "Call.gt_none", "Call.ph", "Call.tag_none", "Call.tag_int", "Call.tag_list", "PVW._phase_tag_found_warned"]
 
-# self._set_phasing_tags: _set_PS's proved postcondition when the tag is PS; for HP the phase bits / genotype part is _set_HP's documented effect (assumed)
+# self._set_phasing_tags: _set_PS's proved postcondition when the tag is PS, _set_HP's proved postcondition when it is HP (assumed: __init__ binds accordingly)
 R.contract(
     "PhasedVcfWriter._set_phasing_tags", assumed=True,
     params={"self": REF("PVW"), "call": REF("Call"), "component": INT, "phase": LIST(INT), "haploid_component": MAYBE(LIST(INT))},
@@ -269,7 +269,7 @@ R.contract(
         ("ps-gt-is-the-phase-in-order", "implies(self.tag == tag('PS'), len(call.gt) == len(phase) and forall(i, implies(0 <= i and i < len(phase), call.gt[i] == phase[i])) and not call.gt_none)"),
         ("ps-all-alleles-phased", "implies(self.tag == tag('PS'), forall(i, implies(1 <= i, i in call.ph)))"),
         ("ps-other-tags-as-before", "implies(self.tag == tag('PS'), forall(t, implies(t != tag('PS') and t != tag('HS'), (t in call.tag_none) == old(t in call.tag_none))))"),
-        # tag == HP: _set_HP writes the HP value (and HS) and leaves the genotype and its phase bits alone (assumed: f-string formatting is outside the subset)
+        # tag == HP: the postcondition of _set_HP as proved in contracts/vcf_py.py (HP set, HS as given, genotype and phase bits untouched)
         ("hp-is-set", "implies(self.tag == tag('HP'), tag('HP') not in call.tag_none)"),
         ("hp-genotype-untouched", "implies(self.tag == tag('HP'), GT_SAME(call) and forall(t, implies(t != tag('HP') and t != tag('HS'), (t in call.tag_none) == old(t in call.tag_none))))"),
         ("only-this-call", "ONLY_CALL(call)"),
